@@ -13,15 +13,21 @@ import (
 type solverSpec struct {
 	name string
 	cmd  func(timeoutS int) []string
+	// ufnl: run on the script with non-linear multiplication/division made uninterpreted
+	// (see ufnl.go); only `unsat` is meaningful for such a configuration
+	ufnl bool
 }
 
 var solvers = []solverSpec{
-	{"z3-5.1.0", func(t int) []string { return []string{"z3-new", "-in", "-T:" + itoa(t)} }},
+	{name: "z3-5.1.0", cmd: func(t int) []string { return []string{"z3-new", "-in", "-T:" + itoa(t)} }},
 	// E-matching only: the VCs carry explicit triggers; MBQI often diverges on them
-	{"z3-5.1.0-ematch", func(t int) []string { return []string{"z3-new", "-in", "-T:" + itoa(t), "smt.mbqi=false"} }},
-	{"z3-4.8.12", func(t int) []string { return []string{"z3", "-in", "-T:" + itoa(t)} }},
-	{"z3-4.8.12-ematch", func(t int) []string { return []string{"z3", "-in", "-T:" + itoa(t), "smt.mbqi=false"} }},
-	{"cvc5-1.0", func(t int) []string {
+	{name: "z3-5.1.0-ematch", cmd: func(t int) []string { return []string{"z3-new", "-in", "-T:" + itoa(t), "smt.mbqi=false"} }},
+	// congruence-only arithmetic: products of symbolic factors are uninterpreted
+	{name: "z3-5.1.0-ufnl", cmd: func(t int) []string { return []string{"z3-new", "-in", "-T:" + itoa(t), "smt.mbqi=false"} }, ufnl: true},
+	{name: "z3-4.8.12", cmd: func(t int) []string { return []string{"z3", "-in", "-T:" + itoa(t)} }},
+	{name: "z3-4.8.12-ematch", cmd: func(t int) []string { return []string{"z3", "-in", "-T:" + itoa(t), "smt.mbqi=false"} }},
+	{name: "z3-4.8.12-ufnl", cmd: func(t int) []string { return []string{"z3", "-in", "-T:" + itoa(t), "smt.mbqi=false"} }, ufnl: true},
+	{name: "cvc5-1.0", cmd: func(t int) []string {
 		return []string{"cvc5", "--lang=smt2", "--tlimit=" + itoa(t*1000), "--produce-models", "-"}
 	}},
 }
@@ -40,6 +46,9 @@ func runSolver(ctx context.Context, s solverSpec, script string, timeoutS int) s
 	cctx, cancel := context.WithTimeout(ctx, time.Duration(timeoutS+2)*time.Second)
 	defer cancel()
 	cmd := exec.CommandContext(cctx, args[0], args[1:]...)
+	if s.ufnl {
+		script = ufNonlinear(script)
+	}
 	cmd.Stdin = strings.NewReader(script)
 	var out bytes.Buffer
 	cmd.Stdout = &out
@@ -55,6 +64,9 @@ func runSolver(ctx context.Context, s solverSpec, script string, timeoutS int) s
 		res = "unsat"
 	case first == "sat":
 		res = "sat"
+		if s.ufnl {
+			res = "unknown" // a model of the weakened script says nothing about the original
+		}
 	case first == "unknown":
 		res = "unknown"
 	case first == "timeout" || strings.Contains(first, "timeout") || strings.Contains(first, "interrupted") || cctx.Err() != nil:
